@@ -45,8 +45,35 @@ pub struct EntryMeta {
     pub clock: Vec<u32>,
 }
 
+/// Everything that happens in an execution, in real order (std side)
+#[derive(Clone, Debug, PartialEq, Eq)]
+pub enum Evt {
+    /// index into `entries`
+    Op(usize),
+    Start(usize),
+    /// the op loop of the task ended (normally) with this return value
+    End(usize, i64),
+    /// join on `target` returned in `joiner` with this value
+    JoinRet { joiner: usize, target: usize, value: i64 },
+    ScopeRet { owner: usize },
+    TlsInit { task: usize, key: usize, serial: u64 },
+    TlsDrop { task: Option<usize>, key: usize, serial: u64, owner: usize },
+    /// access to key 0 from inside the destructor of `key`: Ok(owner of the value seen) / Err
+    TlsAccessInDrop { key: usize, owner: usize, result: Result<usize, ()> },
+    LazyInit { task: usize, key: usize, serial: u64 },
+    LazyDrop { key: usize, serial: u64 },
+    /// identity as reported by thread::current() at task start: (task, shuttle id, name)
+    Identity { task: usize, id: usize, name: Option<String> },
+    /// identity of the spawned thread as seen by the spawner through the JoinHandle
+    SpawnedIdentity { task: usize, id: usize, name: Option<String> },
+}
+
 #[derive(Clone, Debug, Default)]
 pub struct ExecLog {
+    pub evts: Vec<Evt>,
+    /// number of live static values (TLS / lazy) created by the harness and not yet dropped, sampled
+    /// when the execution started
+    pub live_at_start: i64,
     /// global log in real interleaving order
     pub entries: Vec<Entry>,
     pub meta: Vec<EntryMeta>,
@@ -127,8 +154,8 @@ enum TxEnd {
 }
 
 enum Handle {
-    Thread(thread::JoinHandle<()>),
-    Fut(sfuture::JoinHandle<()>),
+    Thread(thread::JoinHandle<i64>),
+    Fut(sfuture::JoinHandle<i64>),
 }
 
 struct Event {
@@ -154,6 +181,13 @@ pub struct World {
     next_task_id: StdMutex<usize>,
     /// a Shuttle atomic used only as an explicit scheduling point
     tick: AtomicBool,
+}
+
+impl Drop for World {
+    fn drop(&mut self) {
+        // a World may be dropped outside any execution (e.g. when an OS thread of a PortfolioRunner exits)
+        self.retire();
+    }
 }
 
 // The World is only ever touched from the single OS thread that runs the Shuttle execution.
@@ -227,6 +261,7 @@ impl World {
             (0, vec![])
         };
         self.sink.with_current(|l| {
+            l.evts.push(Evt::Op(l.entries.len()));
             l.entries.push(Entry { task, pc, obs });
             if self.opts.clocks {
                 l.meta.push(EntryMeta { tid, clock });
@@ -239,6 +274,128 @@ impl World {
     }
 }
 
+// ---------------------------------------------------------------------------------------------
+// the static pool: thread-locals, lazy statics and a static Once (per-execution state under Shuttle)
+// ---------------------------------------------------------------------------------------------
+
+static SERIAL: std::sync::atomic::AtomicU64 = std::sync::atomic::AtomicU64::new(1);
+/// values of the static pool currently alive (created, not yet dropped)
+pub static LIVE: std::sync::atomic::AtomicI64 = std::sync::atomic::AtomicI64::new(0);
+
+std::thread_local! {
+    /// the world of the execution currently running on this OS thread
+    static CUR: std::cell::RefCell<Option<Arc<World>>> = const { std::cell::RefCell::new(None) };
+}
+
+fn cur_world() -> Option<Arc<World>> {
+    CUR.with(|c| c.borrow().clone())
+}
+
+fn logical_me(w: &World) -> Option<usize> {
+    let id = usize::from(shuttle::current::me());
+    w.sink.with_current(|l| l.self_ids.iter().position(|x| *x == Some(id)))
+}
+
+pub struct TlsVal {
+    w: Option<Arc<World>>,
+    key: usize,
+    owner: usize,
+    serial: u64,
+}
+
+impl TlsVal {
+    fn new(key: usize) -> Self {
+        let serial = SERIAL.fetch_add(1, std::sync::atomic::Ordering::SeqCst);
+        LIVE.fetch_add(1, std::sync::atomic::Ordering::SeqCst);
+        let w = cur_world();
+        let owner = w.as_ref().and_then(|w| logical_me(w)).unwrap_or(usize::MAX);
+        if let Some(w) = &w {
+            w.sink.with_current(|l| l.evts.push(Evt::TlsInit { task: owner, key, serial }));
+        }
+        TlsVal { w, key, owner, serial }
+    }
+}
+
+impl Drop for TlsVal {
+    fn drop(&mut self) {
+        LIVE.fetch_sub(1, std::sync::atomic::Ordering::SeqCst);
+        let Some(w) = self.w.take() else { return };
+        // the destructor may run while the execution is being torn down: only log while a task context exists
+        let in_task = std::panic::catch_unwind(|| shuttle::current::get_current_task()).ok().flatten().is_some();
+        let task = if in_task && !std::thread::panicking() { logical_me(&w) } else { None };
+        if let Ok(mut g) = w.sink.logs.lock() {
+            if let Some(l) = g.last_mut() {
+                l.evts.push(Evt::TlsDrop { task, key: self.key, serial: self.serial, owner: self.owner });
+            }
+        }
+        if task.is_none() {
+            return;
+        }
+        if self.key >= 1 {
+            // destructors that themselves use thread-locals
+            let r = K0.try_with(|v| v.owner).map_err(|_| ());
+            w.sink.with_current(|l| l.evts.push(Evt::TlsAccessInDrop { key: self.key, owner: self.owner, result: r }));
+        }
+        if self.key == 2 && !w.atomics.is_empty() {
+            // ... or synchronisation (a scheduling-visible operation inside a destructor)
+            w.atomics[0].fetch_add(100, Ordering::SeqCst);
+        }
+    }
+}
+
+shuttle::thread_local! {
+    static K0: TlsVal = TlsVal::new(0);
+    static K1: TlsVal = TlsVal::new(1);
+    static K2: TlsVal = TlsVal::new(2);
+}
+
+pub struct LazyVal {
+    w: Option<Arc<World>>,
+    key: usize,
+    init_task: usize,
+    serial: u64,
+}
+
+// only ever touched from the OS thread running the execution
+unsafe impl Sync for LazyVal {}
+unsafe impl Send for LazyVal {}
+
+impl LazyVal {
+    fn new(key: usize) -> Self {
+        let serial = SERIAL.fetch_add(1, std::sync::atomic::Ordering::SeqCst);
+        LIVE.fetch_add(1, std::sync::atomic::Ordering::SeqCst);
+        let w = cur_world();
+        let init_task = w.as_ref().and_then(|w| logical_me(w)).unwrap_or(usize::MAX);
+        if let Some(w) = &w {
+            w.sink.with_current(|l| l.evts.push(Evt::LazyInit { task: init_task, key, serial }));
+        }
+        LazyVal { w, key, init_task, serial }
+    }
+}
+
+impl Drop for LazyVal {
+    fn drop(&mut self) {
+        LIVE.fetch_sub(1, std::sync::atomic::Ordering::SeqCst);
+        if let Some(w) = self.w.take() {
+            if let Ok(mut g) = w.sink.logs.lock() {
+                if let Some(l) = g.last_mut() {
+                    l.evts.push(Evt::LazyDrop { key: self.key, serial: self.serial });
+                }
+            }
+        }
+    }
+}
+
+shuttle::lazy_static! {
+    static ref L0: LazyVal = LazyVal::new(0);
+    static ref L1: LazyVal = LazyVal::new(1);
+}
+
+static SONCE: Once = Once::new();
+
+#[derive(Clone, Debug)]
+struct HLabel(i64);
+
 fn noop_waker() -> Waker {
     fn clone(_: *const ()) -> RawWaker {
         RawWaker::new(std::ptr::null(), &VTABLE)
@@ -250,12 +407,12 @@ fn noop_waker() -> Waker {
 
 /// Drive the interpreter future of a THREAD task: it never awaits anything that can be pending
 /// (every blocking op is a synchronous Shuttle call), so a single poll completes it.
-fn thread_main(w: Arc<World>, me: usize, ends: Ends) {
+fn thread_main(w: Arc<World>, me: usize, ends: Ends) -> i64 {
     let mut fut = Box::pin(run_task(w, me, false, ends));
     let waker = noop_waker();
     let mut cx = Context::from_waker(&waker);
     match fut.as_mut().poll(&mut cx) {
-        Poll::Ready(()) => {}
+        Poll::Ready(v) => v,
         Poll::Pending => panic!("harness bug: thread task suspended in an await"),
     }
 }
@@ -311,6 +468,28 @@ pub struct Ends {
 }
 
 impl World {
+    /// Called on the world of a *previous* execution before it is dropped: channel ends that were never
+    /// handed to a task must not run their Drop impl inside a later execution (they refer to task ids of
+    /// the old one), so they are leaked; everything else in a World is inert data.
+    fn retire(&self) {
+        for per_chan in &self.tx {
+            for slot in per_chan {
+                if let Ok(mut g) = slot.lock() {
+                    if let Some(e) = g.take() {
+                        std::mem::forget(e);
+                    }
+                }
+            }
+        }
+        for slot in &self.rx {
+            if let Ok(mut g) = slot.lock() {
+                if let Some(e) = g.take() {
+                    std::mem::forget(e);
+                }
+            }
+        }
+    }
+
     fn take_ends(&self, t: usize) -> Ends {
         let nc = self.prog.objs.chans.len();
         Ends {
@@ -320,7 +499,7 @@ impl World {
     }
 }
 
-async fn run_task(w: Arc<World>, me: usize, is_async: bool, ends: Ends) {
+async fn run_task(w: Arc<World>, me: usize, is_async: bool, ends: Ends) -> i64 {
     let _exit_guard = ExitGuard { sink: w.sink.clone(), me };
     let wr: &World = &w;
     let prog: &Prog = &wr.prog;
@@ -339,8 +518,11 @@ async fn run_task(w: Arc<World>, me: usize, is_async: bool, ends: Ends) {
             l.spawn_ids[0] = Some(0);
         }
     });
+    wr.sink.with_current(|l| l.evts.push(Evt::Start(me)));
     if !is_async {
         let cur = thread::current();
+        let (id, name) = (usize::from(cur.id()), cur.name().map(|s| s.to_string()));
+        wr.sink.with_current(|l| l.evts.push(Evt::Identity { task: me, id, name }));
         *wr.threads[me].lock().unwrap() = Some(cur);
     }
     if me == 0 && wr.opts.initial_world {
@@ -645,6 +827,8 @@ async fn run_task(w: Arc<World>, me: usize, is_async: bool, ends: Ends) {
                         TaskKind::Thread => {
                             let h = thread::Builder::new().name(format!("T{t2}")).spawn(move || thread_main(w2, t2, ends2)).unwrap();
                             *wr.threads[t2].lock().unwrap() = Some(h.thread().clone());
+                            let (hid, hname) = (usize::from(h.thread().id()), h.thread().name().map(|s| s.to_string()));
+                            wr.sink.with_current(|l| l.evts.push(Evt::SpawnedIdentity { task: t2, id: hid, name: hname }));
                             handles[t2] = Some(Handle::Thread(h));
                         }
                         TaskKind::Async => {
@@ -665,15 +849,23 @@ async fn run_task(w: Arc<World>, me: usize, is_async: bool, ends: Ends) {
             Op::Join(t) => Some(match handles[*t].take() {
                 None => SKIP,
                 Some(Handle::Thread(h)) => {
-                    h.join().expect("joined thread panicked");
-                    wr.sink.with_current(|l| l.joined[*t] = true);
+                    let v = h.join().expect("joined thread panicked");
+                    wr.sink.with_current(|l| {
+                        l.joined[*t] = true;
+                        l.evts.push(Evt::JoinRet { joiner: me, target: *t, value: v });
+                    });
                     1
                 }
                 Some(Handle::Fut(h)) => {
                     let r = if is_async { h.await } else { sfuture::block_on(h) };
-                    wr.sink.with_current(|l| l.joined[*t] = true);
+                    wr.sink.with_current(|l| {
+                        l.joined[*t] = true;
+                        if let Ok(v) = &r {
+                            l.evts.push(Evt::JoinRet { joiner: me, target: *t, value: *v });
+                        }
+                    });
                     match r {
-                        Ok(()) => 1,
+                        Ok(_) => 1,
                         Err(_) => 3,
                     }
                 }
@@ -817,6 +1009,53 @@ async fn run_task(w: Arc<World>, me: usize, is_async: bool, ends: Ends) {
                 }
                 None
             }
+            Op::Tls(k) => Some({
+                let key: &'static shuttle::thread::LocalKey<TlsVal> = match k {
+                    0 => &K0,
+                    1 => &K1,
+                    _ => &K2,
+                };
+                match key.try_with(|v| v.owner) {
+                    Ok(o) => (o == me) as i64,
+                    Err(_) => -1,
+                }
+            }),
+            Op::Lazy(k) => Some(if *k == 0 { L0.init_task as i64 } else { L1.init_task as i64 }),
+            Op::StaticOnce => {
+                let mut ran = false;
+                SONCE.call_once(|| ran = true);
+                Some(ran as i64)
+            }
+            Op::Label(v) => {
+                let id = shuttle::current::me();
+                let prev = shuttle::current::set_label_for_task(id, HLabel(*v));
+                Some(prev.map(|l| l.0).unwrap_or(-1))
+            }
+            Op::Scope(cs) => {
+                let kids: Vec<(usize, Ends)> = cs
+                    .iter()
+                    .filter(|c| wr.sink.with_current(|l| l.spawn_ids[**c].is_none()))
+                    .map(|c| (*c, wr.take_ends(*c)))
+                    .collect();
+                let wref = &w;
+                thread::scope(|s| {
+                    for (c, ends) in kids {
+                        let w2 = wref.clone();
+                        let h = s.spawn(move || thread_main(w2, c, ends));
+                        // (spawn has its scheduling point before the task is created: take the id afterwards)
+                        let id = {
+                            let mut n = wr.next_task_id.lock().unwrap();
+                            let id = *n;
+                            *n += 1;
+                            id
+                        };
+                        wr.sink.with_current(|l| l.spawn_ids[c] = Some(id));
+                        *wr.threads[c].lock().unwrap() = Some(h.thread().clone());
+                    }
+                });
+                wr.sink.with_current(|l| l.evts.push(Evt::ScopeRet { owner: me }));
+                Some(0)
+            }
             Op::ResetSteps => {
                 shuttle::current::reset_step_count();
                 // observation = number of steps recorded so far (the position the count restarts from)
@@ -867,6 +1106,9 @@ async fn run_task(w: Arc<World>, me: usize, is_async: bool, ends: Ends) {
             drop(e);
         }
     }
+    let ret = (me as i64) * 1000 + last.rem_euclid(1000);
+    wr.sink.with_current(|l| l.evts.push(Evt::End(me, ret)));
+    ret
 }
 
 /// The test body for a Runner: builds a fresh world per execution and runs task 0.
@@ -881,6 +1123,14 @@ pub fn body(prog: Arc<Prog>, sink: Sink, opts: Opts) -> impl Fn() + Send + Sync 
             ..Default::default()
         });
         let w = World::new(prog.clone(), sink.clone(), opts);
+        // the world of the previous execution (if any) is released here, inside an execution
+        let old = CUR.with(|c| c.borrow_mut().replace(w.clone()));
+        if let Some(o) = &old {
+            o.retire();
+        }
+        drop(old);
+        let live = LIVE.load(std::sync::atomic::Ordering::SeqCst);
+        sink.with_current(|l| l.live_at_start = live);
         let ends = w.take_ends(0);
         thread_main(w, 0, ends);
     }
